@@ -14,6 +14,7 @@ import (
 	"verifmc/evid"
 	"verifmc/explore"
 	"verifmc/hx"
+	"verifmc/netrows"
 	"verifmc/stacks"
 	"verifmc/vrt"
 )
@@ -282,7 +283,7 @@ func main() {
 		}
 		return c
 	}
-	kinds := []string{"mem", "frag", "mbapp", "mux-string", "multi", "multi-ask", "map", "wl", "p2pke"}
+	kinds := []string{"mem", "frag", "mbapp", "mux-string", "multi", "multi-ask", "map", "wl", "p2pke", "udp"}
 	if run.Thorough() {
 		kinds = stacks.Kinds
 	}
@@ -302,5 +303,9 @@ func main() {
 	explore.Main(run, scs, evid.Pick(run, 150*time.Second, 15*time.Minute))
 	run.Set("preemption_bound", pb)
 	run.Assume("virtual timers fire only when no thread is runnable, up to the per-stack horizon; QUIC/SSH/UDP stacks are outside the scheduler")
+	// free-running rows for sshswarm / quicswarm (outside the controlled scheduler)
+	if netrows.Run(run) {
+		run.Assume("sshswarm and quicswarm rows run free on loopback (third-party goroutines and sockets): every listed call configuration is executed once under the runtime's own schedule; waits of 20-30 s only give up, the only timing verdict is 'has not returned long after its deadline'")
+	}
 	run.Finish()
 }
